@@ -25,6 +25,7 @@ type QVar struct {
 
 type Clause struct {
 	Label string
+	BodyOnly bool // proved of the body, not offered to callers ("ensures-body": a fact that holds only inside the model the body is verified in)
 	E     *Expr
 	Src   string
 	Line  int
@@ -290,6 +291,10 @@ func (cs *ContractSet) parseFile(file, pkg string) error {
 			case "ensures":
 				curLoop = nil
 				newClause(&cur.Ensures)
+			case "ensures-body":
+				curLoop = nil
+				newClause(&cur.Ensures)
+				lastClause.BodyOnly = true
 			case "assume":
 				curLoop = nil
 				newClause(&cur.Assumes)
